@@ -993,6 +993,24 @@ def c15(run):
 # ------------------------------------------------------------------------------------------------
 # C16: per-thread error descriptions
 
+def apalache_inductive(module, cinit, indinit, inv):
+    """Informational (never decides the exit code): Apalache discharges Init => IndInv and
+    IndInv /\\ Next => IndInv' for spec/apalache/<module>.tla; bounded by a timeout."""
+    import subprocess
+    d = os.path.join(vlib.SPEC, "apalache")
+    res = {}
+    for name, args in (("base", ["--cinit=" + cinit, "--inv=" + inv, "--length=0"]), ("step", ["--cinit=" + cinit, "--init=" + indinit, "--inv=" + inv, "--length=1"])):
+        try:
+            out_dir = os.path.join(vlib.WORK, "apalache_" + name)
+            r = subprocess.run(["apalache-mc", "check", "--out-dir=" + out_dir] + args + [module + ".tla"], cwd=d, stdout=subprocess.PIPE, stderr=subprocess.STDOUT, text=True, timeout=900)
+            res[name] = "holds" if "EXITCODE: OK" in r.stdout else "not established: " + r.stdout[-200:]
+        except Exception as ex:     # timeout or tool missing
+            res[name] = "not established: %s" % type(ex).__name__
+    import shutil
+    shutil.rmtree(os.path.join(d, "tmp"), ignore_errors=True)
+    return res
+
+
 @check("C16")
 def c16(run):
     run.assumptions += ["every interleaving TLC enumerates for 2 threads x (fail, read, fail, read) (70 schedules; thorough also 3 threads x (fail, read, read): 1680) is replayed by a coordinator that releases one thread step at a time through channels (no timing); failing calls differ per thread and per step so that descriptions are distinguishable",
@@ -1003,6 +1021,8 @@ def c16(run):
     if not quick(run):
         res3, out3 = run.model("MC_Slots", "MC_Slots_3.cfg", workers=1)
         scheds += [("3", ["F", "R", "R"], json.loads(r)) for _, r in vlib.prints(out3, "REPLAY")]
+    if not quick(run):
+        run.cov["apalache_inductive_invariant"] = apalache_inductive("SlotsInd", "CInit", "IndInit", "IndInv")
     reps = 3 if quick(run) else 2
     scen = []
     for n, prog, order in scheds:
